@@ -117,6 +117,22 @@ func construct(toks []oracle.Tok, ent float32) (spg.Password, error) {
 	return p, nil
 }
 
+// decoys are other passwords whose indices are built between MakeIndices and Tokenize.
+var decoys = func() []spg.Password {
+	var out []spg.Password
+	for _, ts := range [][]oracle.Tok{
+		{{V: "xx", T: oracle.AtomT}, {V: "-", T: oracle.SepT}, {V: "yyyy", T: oracle.AtomT}},
+		{{V: "q", T: oracle.SepT}, {V: "q", T: oracle.SepT}, {V: "zzzzzzz", T: oracle.AtomT}, {V: "w", T: oracle.AtomT}, {V: "w", T: oracle.AtomT}},
+		{{V: "long", T: oracle.AtomT}, {V: "er", T: oracle.AtomT}, {V: "words", T: oracle.AtomT}, {V: "here", T: oracle.AtomT}, {V: "now", T: oracle.AtomT}, {V: "ok", T: oracle.AtomT}},
+	} {
+		p, err := construct(ts, 1)
+		if err == nil {
+			out = append(out, p)
+		}
+	}
+	return out
+}()
+
 func roundTrip(p *spg.Password, mustEncode bool) error {
 	toks := toToks(p.Tokens())
 	if len(toks) == 0 {
@@ -129,6 +145,17 @@ func roundTrip(p *spg.Password, mustEncode bool) error {
 		}
 		ev.Class("encode_refused")
 		return nil
+	}
+	// an index is a value: it must survive later MakeIndices calls on other
+	// passwords (index a batch first, tokenize afterwards)
+	saved := append([]byte{}, idx...)
+	for _, d := range decoys {
+		if _, e := d.Tokens().MakeIndices(); e != nil {
+			return &ev.Inc{Why: "decoy index: " + e.Error()}
+		}
+	}
+	if string(saved) != string(idx) {
+		return fmt.Errorf("the index %v returned by MakeIndices changed to %v after MakeIndices was called for other passwords", saved, []byte(idx))
 	}
 	back, err := spg.Tokenize(p.String(), idx, p.Entropy)
 	if err != nil {
